@@ -19,7 +19,8 @@ func init() {
 			"X2 the disabled test precedes every submission / completion write in doSplit and stepPipeline and a disabled fork writes the disabled marker, " +
 			"X3 an empty or null mapped collection reaches writeDisable in the fork-expansion functions and Fork.disabled reports a zero-length range, " +
 			"X4 skipping preflights is guarded by Preflight && SkipPreflight and skip() has no other callers; X5 a node's list of disabling conditions, which children and siblings share, is never extended in place (may-alias analysis: no append whose first operand can share the backing array of a CallGraphStage.Disable); O1 (shared with C02) bounds where jobs can be submitted. " +
-			"X6 a fork-id part shared with sibling forks of an outer run-time dimension is resolved only through the join of the caller's part and a private copy taken on an edge that compares len(node.forks) with this fork's index (one known finding: the single-key map branch). " +
+			"X6 a fork-id part shared with sibling forks of an outer run-time dimension is resolved only through the join of the caller's part and a private copy taken on an edge that compares len(node.forks) with this fork's index. " +
+			"X3 also: every path of Fork.disabled to an 'enabled' verdict has passed the loop that examines the fork's ranges for zero length. " +
 			"NOT decided: one fork per element/key (run-time counts), liveness (no job skipped).",
 		Assumptions: commonAssumptions,
 	}
